@@ -76,6 +76,7 @@ pub struct Cov {
     pub c09_sleep_checks: u32,
     pub c09_multi_call_cycles: u32,
     pub c09_sleep_crossed: u32,
+    pub c09_credit_checks: u32,
     pub convert_ops: u32,
 }
 
@@ -91,7 +92,7 @@ impl Cov {
             callbacks_with_debt_active_temps, arena_drop_with_shell, faults_trace, faults_callback, faults_ctor, used_after_fault,
             finalize_calls, finalize_after_mutation, resurrect_dead_with_child, resurrect_calls, stash_active, slot_reuse_live,
             foreign_fetch, other_arena_active, barrier_black_nontracing, barrier_black_tracing, taint_skips, c09_tracked_cycles,
-            c09_bound_checks, c09_sleep_checks, c09_multi_call_cycles, c09_sleep_crossed, convert_ops
+            c09_bound_checks, c09_sleep_checks, c09_multi_call_cycles, c09_sleep_crossed, c09_credit_checks, convert_ops
         );
         for i in 0..4 {
             self.adopt_active[i] += o.adopt_active[i];
@@ -134,7 +135,7 @@ impl Cov {
             "steps_with_other_arena_active": self.other_arena_active,
             "barrier_on_black_tracing": self.barrier_black_tracing, "barrier_on_black_nontracing": self.barrier_black_nontracing,
             "c09_tracked_cycles": self.c09_tracked_cycles, "c09_bound_checks": self.c09_bound_checks, "c09_sleep_checks": self.c09_sleep_checks,
-            "c09_cycles_with_3plus_calls": self.c09_multi_call_cycles, "c09_sleep_allowance_crossed": self.c09_sleep_crossed,
+            "c09_cycles_with_3plus_calls": self.c09_multi_call_cycles, "c09_sleep_allowance_crossed": self.c09_sleep_crossed, "c09_credit_checks": self.c09_credit_checks,
             "conversion_ops": self.convert_ops,
             "adoption_cells": cells, "c08_triples": c08, "weak_cells": weak, "fault_cells": faults,
         })
@@ -158,6 +159,8 @@ pub struct ExecOpts {
     pub c09: bool,
     /// use the hook snapshot for classification
     pub hook: bool,
+    /// cap on live objects per case (0 = default 64)
+    pub max_live: usize,
 }
 
 /// Per-arena bookkeeping that is not part of the graph model.
@@ -192,6 +195,8 @@ pub struct C09Bk {
     pub sleep: Option<(u64, f64, f64)>,
     pub allocs_while_sweeping: u64,
     pub negative_adjust: bool,
+    /// credited work observed in the tracked cycle (lower bound: debt decreases across calls)
+    pub credits: f64,
 }
 
 pub struct Exec {
@@ -211,6 +216,8 @@ pub struct Exec {
     pub active_adoptions: u32,
     pub internal_errors: Vec<String>,
     pub cb: CbStats,
+    /// a violation after which the heap under test may be corrupt: stop touching it
+    pub fatal: bool,
 }
 
 impl Exec {
@@ -232,10 +239,15 @@ impl Exec {
             active_adoptions: 0,
             internal_errors: Vec::new(),
             cb: CbStats::default(),
+            fatal: false,
         }
     }
 
     pub fn violate(&mut self, prop: &'static str, tag: &'static str, msg: String) {
+        // memory-safety class: the real heap can no longer be trusted
+        if matches!(prop, "C01" | "C03" | "C04" | "C05" | "C06" | "C11" | "C14" | "C17" | "C19") {
+            self.fatal = true;
+        }
         if self.violations.len() < 32 {
             let v = Violation {
                 prop,
@@ -252,7 +264,12 @@ impl Exec {
         }
     }
 
+    pub fn live_objects(&self) -> usize {
+        self.model.objs.iter().filter(|o| o.status != Status::Released).count()
+    }
+
     pub fn internal(&mut self, msg: String) {
+        self.fatal = true;
         obs::untracked(|| self.internal_errors.push(msg));
     }
 
